@@ -8,6 +8,16 @@ TRUST = ("Trusted: Lean 4.33 kernel (axioms ⊆ propext, Classical.choice, Quot.
          "harness/extract.py; the correspondence check (generators, canonicaliser, diff); ")
 
 CLAIMS = {
+    "C01": dict(
+        technique="Lean 4 proof (clause-by-clause theorems about the specification Spec.resolve; Fn::Sub scanner round-trip and token-exactness by induction) + differential correspondence",
+        text="Spec.resolve is a pure compositional function of (parameters, mappings, conditions, expression), structurally recursive over JSON. "
+             "Theorems state each clause of the property for all environments and expressions: the dispatch table regenerated from the live "
+             "FUNCTION_MAPPINGS, scalar rendering, the three placeholder texts, Select out of range, compositionality through lists and "
+             "objects, and for Fn::Sub that the scanner partitions the text (C01_sub_roundtrip), recovers exactly the tokens of any text built "
+             "from plain characters, ${name} and ${!literal} (C01_sub_tokens_exact), substitutes each once without rescanning (C01_sub_once), "
+             "local map first, unbound verbatim, escapes literal. The driver runs this specification against pycfmodel.resolver.resolve on "
+             "type-directed random expressions over all sixteen functions.",
+        note=TRUST + "typed fragment only (ill-typed expressions are not compared); ASCII placeholder names; Fn::GetAtt/GetAZs values unconstrained; FindInMap leaves as stored."),
     "C08": dict(
         technique="Lean 4 proof (matcher = glob language, by induction) + differential correspondence with the implementation",
         text="Glob.gmatch is proved equal to the inductive glob language for all patterns and strings (C08_sound_complete) with "
